@@ -779,7 +779,7 @@ pub fn str_contains(s1: &SmtString, s2: &SmtString) -> bool {
 /// ```
 ///
 pub fn str_indexof(s1: &SmtString, s2: &SmtString, i: i32) -> i32 {
-    if i < 0 || i >= s1.len() as i32 {
+    if i < 0 || i > s1.len() as i32 {
         -1
     } else {
         match find_sub_vector(&s2.s, &s1.s, i as usize) {
